@@ -44,6 +44,15 @@ def guard_table(prog, res, q, spec, classes):
             first_try = set(f.descendants(n['id']))
 
     def stop(n):
+        if isinstance(stop_kind, list):
+            for sk in stop_kind:
+                if sk == 'first-try' and first_try is not None and n['id'] in first_try:
+                    return True
+                if sk == 'first-loop' and first_loop is not None and n['id'] in first_loop:
+                    return True
+                if n['k'] == 'CXXMemberCallExpr' and n['callee']['qname'] == sk:
+                    return True
+            return False
         if stop_kind == 'first-loop':
             return first_loop is not None and n['id'] in first_loop
         if stop_kind == 'first-try':
@@ -66,6 +75,10 @@ def guard_table(prog, res, q, spec, classes):
             events, end, undec = a7.walk(f, model, stop=stop)
             for cond, unk in undec:
                 for atom, tc in unk.items():
+                    if atom not in extra and tc == 'b' and re.match(r'^\(anonymous namespace\)::\w+\(', atom):
+                        # a file-local predicate the model cannot evaluate: free boolean
+                        extra[atom] = [False, True]
+                        found = True
                     if atom not in extra and re.match(r'^(this|arg\d+)[.\[]', atom) and tc in ('u', 's', 'f', 'b'):
                         extra[atom] = [0, 1, 2] if tc in ('u', 's') else ([0.0, 0.5] if tc == 'f' else [False, True])
                         found = True
